@@ -1,6 +1,6 @@
 (* C14 - Mutating invocations on one repository are mutually exclusive. *)
 From Coq Require Import List Arith Bool.
-From MR Require Import Model.Lock Proofs.LockProof.
+From MR Require Import Model.Lock Proofs.LockProof Model.LockAddrs Proofs.LockAddrsProof.
 Import ListNotations.
 
 (* [run n cs]: n processes (each one of run / checkpoint update / checkpoint delete / out delete: "bind the
@@ -34,4 +34,19 @@ Example C14_nonvacuous :
   holder s = None /\ procs s = [Ended; Ended; Ended] /\ effects s = [0].
 Proof. vm_compute. auto. Qed.
 
+(* The lock address is host:port and the host may resolve to K >= 1 socket addresses (all processes resolve it alike).  With the
+   acquisition as it is now - bind EVERY resolved address, AddrInUse on any of them fails and releases - at most one process is
+   past lock acquisition, for every K, every number of processes and every interleaving of their individual binds and exits. *)
+Definition C14_multi_address_statement (mrun : nat -> nat -> list mchoice -> msys) : Prop :=
+  forall K n cs p q, 0 < K -> mholding (mrun K n cs) p = true -> mholding (mrun K n cs) q = true -> p = q.
+
+Theorem C14_multi_address_holds : C14_multi_address_statement (mrun true).
+Proof. intros K n cs p q. apply multi_address_exclusion. Qed.
+
+Example C14_multi_address_nonvacuous :
+  let s := mrun true 2 2 [MStart 0; MBind 0; MStart 1; MBind 1; MBind 0; MBind 1] in
+  mholding s 0 = true /\ mget s 1 = MRefused /\ owner s = [Some 0; Some 0].
+Proof. vm_compute. auto. Qed.
+
 Print Assumptions C14_holds.
+Print Assumptions C14_multi_address_holds.
